@@ -290,7 +290,7 @@ def main : IO UInt32 := do
   let mut cur := ""
   let mut n := 0
   for line in lines do
-    let toks := tokens line
+    let toks := (line.splitOn " ").filter (· ≠ "")   -- `readLines` already stripped the terminators
     match toks with
     | ["case", id] => cur := id; st := {}
     | ["end"] =>
